@@ -52,7 +52,34 @@ func c15Compare(c *core.Ctx, cfg bandCfg, b band.Band, up []chModel, down []chMo
 			dis = append(dis, i)
 		}
 	}
-	eq := func(a, b []int) bool { return fmt.Sprint(a) == fmt.Sprint(b) || (len(a) == 0 && len(b) == 0) }
+	// index *sets*: the same members with the same multiplicity; the order in which they are reported is
+	// not part of the property (the library reports ascending)
+	eq := func(a, b []int) bool {
+		x, y := append([]int{}, a...), append([]int{}, b...)
+		sort.Ints(x)
+		sort.Ints(y)
+		return fmt.Sprint(x) == fmt.Sprint(y) || (len(x) == 0 && len(y) == 0)
+	}
+	// what a getter returns is the caller's: overwriting it must not reach the band (or an earlier result)
+	{
+		first := [][]int{b.GetUplinkChannelIndices(), b.GetStandardUplinkChannelIndices(), b.GetCustomUplinkChannelIndices(), b.GetEnabledUplinkChannelIndices(), b.GetDisabledUplinkChannelIndices(), b.GetEnabledUplinkDataRates()}
+		keep := make([]string, len(first))
+		for i, s := range first {
+			keep[i] = fmt.Sprint(s)
+		}
+		again := [][]int{b.GetUplinkChannelIndices(), b.GetStandardUplinkChannelIndices(), b.GetCustomUplinkChannelIndices(), b.GetEnabledUplinkChannelIndices(), b.GetDisabledUplinkChannelIndices(), b.GetEnabledUplinkDataRates()}
+		for _, s := range again {
+			for i := range s {
+				s[i] = -7
+			}
+			_ = append(s, 99, 98, 97)
+		}
+		for i, s := range first {
+			if fmt.Sprint(s) != keep[i] {
+				bad("returned-slice-shared", "an index list returned earlier changed when a later result of the same getter was overwritten: %s -> %v", keep[i], s)
+			}
+		}
+	}
 	c.Eval(5)
 	if g := b.GetUplinkChannelIndices(); !eq(g, all) {
 		bad("index-set|all", "GetUplinkChannelIndices %v, model %v", g, all)
@@ -209,6 +236,16 @@ func c15Compare(c *core.Ctx, cfg bandCfg, b band.Band, up []chModel, down []chMo
 				stripZeroMasks(o2)
 				return back.CFList, o2.CFList, nil
 			})
+			// the CFList handed out is the caller's: a join-server that edits it (or keeps it) must not change
+			// what the band hands out next
+			before := core.Dump(cf)
+			cf2 := b.GetCFList(ver)
+			core.Scribble(cf2)
+			if now := core.Dump(cf); now != before {
+				bad("cflist-shared", "a CFList obtained from GetCFList(%s) changed when another one obtained later was overwritten", ver)
+			} else if cf3 := b.GetCFList(ver); core.Dump(cf3) != before {
+				bad("cflist-shared", "GetCFList(%s) hands out something else after an earlier result was overwritten by the caller: %s, before %s", ver, short(core.Dump(cf3), 200), short(before, 200))
+			}
 		}
 	}
 	return okAll
